@@ -363,9 +363,9 @@ func (t *TrakBox) SetWvttDescriptor(config string) error {
 		config = "WEBVTT"
 	}
 	vttC := VttCBox{Config: config}
-	wvtt := WvttBox{}
+	wvtt := NewWvttBox() // sets data_reference_index = 1 like the other sample entries
 	wvtt.AddChild(&vttC)
-	t.Mdia.Minf.Stbl.Stsd.AddChild(&wvtt)
+	t.Mdia.Minf.Stbl.Stsd.AddChild(wvtt)
 	return nil
 }
 
